@@ -32,6 +32,12 @@ def Raise(cls, b): return {'t': 'raise', 'cls': cls, 'b': b}
 def Return(c): return {'t': 'return', 'c': c}
 def Comment(s): return {'t': 'comment', 's': s}
 
+def Vx(c): return {'t': 'vx', 'c': c}
+def Item(n): return {'k': 'item', 'n': n}
+def Get0(n): return {'k': 'get0', 'n': n}
+def Get1(n): return {'k': 'get1', 'n': n}
+def HasKey(n): return {'k': 'haskey', 'n': n}
+def Render(n): return {'k': 'render', 'n': n}
 def N(n): return {'k': 'name', 'n': n}
 def C(n): return {'k': 'call', 'n': n}
 def X(n): return {'k': 'val', 'n': n}
@@ -158,6 +164,14 @@ def _ref(r, tagattr=True):
         return 'expr="not %s"' % r['n']
     if k == 'attr':
         return 'expr="%s.%s"' % (r['n'], r['a'])
+    if k == 'item':
+        return 'expr="_[\'%s\']"' % r['n']
+    if k in ('get0', 'get1'):
+        return 'expr="_.getitem(\'%s\', %s)"' % (r['n'], k[-1])
+    if k == 'haskey':
+        return 'expr="_.has_key(\'%s\')"' % r['n']
+    if k == 'render':
+        return 'expr="_.render(%s)"' % r['n']
     raise ValueError(k)
 
 
@@ -183,6 +197,8 @@ def pr(prog, sty='dtml'):
             out.append(n['s'])
         elif t == 'var':
             out.append(o('var', _ref({'k': 'name', 'n': n['n']})))
+        elif t == 'vx':
+            out.append(o('var', _ref(n['c'])))
         elif t == 'probe':
             nm = n['n']
             arg = nm if nm.replace('_', 'a').isalnum() else "_.getitem('%s', 0)" % nm
